@@ -76,6 +76,24 @@ func renameArgumentInValue(value *ast.AssignmentValue, previousName string, newN
 	}
 }
 
+// replaceArgumentInEnvelopes replaces the uses of an argument nested in the
+// envelopes of an assignment value.
+func replaceArgumentInEnvelopes(value *ast.AssignmentValue, argumentName string, replacement ast.AssignmentValue) {
+	if value.Envelope == nil {
+		return
+	}
+
+	for i := range value.Envelope.Values {
+		nested := &value.Envelope.Values[i].Value
+		if nested.Argument != nil && nested.Argument.Name == argumentName {
+			*nested = replacement
+			continue
+		}
+
+		replaceArgumentInEnvelopes(nested, argumentName, replacement)
+	}
+}
+
 // ArrayToAppendAction updates the option to perform an "append" assignment.
 //
 // Example:
@@ -565,6 +583,21 @@ func disjunctionStructAsOptions(option ast.Option, disjunctionStruct ast.Type, a
 			break
 		}
 
+		// the argument can also be used within an envelope (`links.append(Link{target: target})`)
+		for i := range assignments {
+			replaceArgumentInEnvelopes(&assignments[i].Value, option.Args[argIndex].Name, ast.AssignmentValue{
+				Envelope: &ast.AssignmentEnvelope{
+					Type: option.Args[argIndex].Type,
+					Values: []ast.EnvelopeFieldValue{
+						{
+							Path:  ast.PathFromStructField(field),
+							Value: ast.AssignmentValue{Argument: &arg},
+						},
+					},
+				},
+			})
+		}
+
 		opt := ast.Option{
 			Name:        field.Name,
 			Args:        args,
@@ -612,6 +645,11 @@ func disjunctionAsOptions(option ast.Option, argIndex int) []ast.Option {
 				ast.Method(assignments[i].Method),
 			)
 			break
+		}
+
+		// the argument can also be used within an envelope (`links.append(Link{target: target})`)
+		for i := range assignments {
+			replaceArgumentInEnvelopes(&assignments[i].Value, option.Args[argIndex].Name, ast.AssignmentValue{Argument: &arg})
 		}
 
 		opt := ast.Option{
